@@ -771,3 +771,47 @@ Lemma queues_short_ring :
   exists A ms m', create_qm 357913942 zero_mem = Ok (A, ms, m') /\
                   q_cap (qm_send A) = 357913942 /\ q_hi (qm_send A) - q_lo (qm_send A) = 8.
 Proof. do 3 eexists. split; [vm_compute; reflexivity|]. split; reflexivity. Qed.
+
+(* ---------------------------------------------------------------------------------------------- *)
+(* the initial free chain: the loop links slot i (at i*stride) to slot i+1, the last slot has no
+   successor and is the tail — i.e. following the chain from head = 0 visits exactly the slots
+   slot_lo c 0 .. slot_lo c (cap-1) of the geometric statement, each once, in order *)
+Definition chain_spec (num cpb : Z) : list (Z * option Z) :=
+  map (fun k => let i := Z.of_nat k in
+                (i * (cpb + c_bufferHeaderSize),
+                 if i <? num - 1 then Some ((i + 1) * (cpb + c_bufferHeaderSize)) else None))
+      (seq 0 (Z.to_nat num)).
+
+Lemma chain_links_spec fuel : forall k num cpb,
+  0 <= cpb -> Z.of_nat k + Z.of_nat fuel = num -> num * (cpb + c_bufferHeaderSize) < 4294967296 ->
+  chain_links fuel (Z.of_nat k) (Z.of_nat k * (cpb + c_bufferHeaderSize)) num cpb =
+  map (fun k => let i := Z.of_nat k in
+                (i * (cpb + c_bufferHeaderSize),
+                 if i <? num - 1 then Some ((i + 1) * (cpb + c_bufferHeaderSize)) else None))
+      (seq k fuel).
+Proof.
+  induction fuel as [|f IH]; intros k num cpb Hc Hn Hlt; [reflexivity|].
+  cbn [chain_links seq map]. cbv zeta.
+  assert (Hstep : (Z.of_nat k + 1) * (cpb + c_bufferHeaderSize) <= num * (cpb + c_bufferHeaderSize))
+    by (apply Z.mul_le_mono_nonneg_r; consts; lia).
+  assert (Hpos : 0 <= Z.of_nat k * (cpb + c_bufferHeaderSize)) by (apply Z.mul_nonneg_nonneg; consts; lia).
+  assert (Hnext : w32 (w32 (Z.of_nat k * (cpb + c_bufferHeaderSize) + cpb) + c_bufferHeaderSize)
+                  = (Z.of_nat k + 1) * (cpb + c_bufferHeaderSize)).
+  { replace ((Z.of_nat k + 1) * (cpb + c_bufferHeaderSize))
+      with (Z.of_nat k * (cpb + c_bufferHeaderSize) + cpb + c_bufferHeaderSize) in * by ring.
+    remember (Z.of_nat k * (cpb + c_bufferHeaderSize)) as P.
+    rewrite (w32_small (P + cpb)) by (consts; lia). apply w32_small. consts; lia. }
+  rewrite Hnext.
+  rewrite (w32_small (num - 1)) by (consts; nia).
+  f_equal.
+  replace (Z.of_nat k + 1) with (Z.of_nat (S k)) by lia.
+  apply IH; lia.
+Qed.
+
+Lemma initial_chain_spec num cpb :
+  0 <= cpb -> 0 <= num -> num * (cpb + c_bufferHeaderSize) < 4294967296 ->
+  initial_chain num cpb = chain_spec num cpb.
+Proof.
+  intros Hc Hn Hlt. unfold initial_chain, chain_spec.
+  apply (chain_links_spec (Z.to_nat num) 0 num cpb Hc); lia.
+Qed.
